@@ -116,10 +116,18 @@ class BBAN(common.Base):
         branch_code_length: int = ranges[Component.BRANCH_CODE].length
         account_code_length: int = ranges[Component.ACCOUNT_CODE].length
 
-        if len(components[Component.BANK_CODE]) == bank_code_length + branch_code_length:
-            components[Component.BRANCH_CODE] = components[Component.BANK_CODE][
+        conflicting_branch_code = False
+        if (
+            branch_code_length
+            and len(components[Component.BANK_CODE]) == bank_code_length + branch_code_length
+        ):
+            branch_code = components[Component.BANK_CODE][
                 bank_code_length : bank_code_length + branch_code_length
             ]
+            if values.get(Component.BRANCH_CODE) and components[Component.BRANCH_CODE] != branch_code:
+                conflicting_branch_code = True
+            else:
+                components[Component.BRANCH_CODE] = branch_code
             components[Component.BANK_CODE] = components[Component.BANK_CODE][:bank_code_length]
 
         if len(components[Component.BANK_CODE]) > bank_code_length:
@@ -133,6 +141,11 @@ class BBAN(common.Base):
         if len(components[Component.ACCOUNT_CODE]) > account_code_length:
             raise exceptions.InvalidAccountCode(
                 f"Account code exceeds maximum size {account_code_length}"
+            )
+
+        if conflicting_branch_code:
+            raise exceptions.InvalidBranchCode(
+                "Branch code differs from the branch part of the combined bank code"
             )
 
         checksum = compute_national_checksum(country_code, components)
